@@ -104,6 +104,9 @@ impl Run {
 
     pub fn begin_case(&mut self, index: u64) {
         CUR_INDEX.store(index, std::sync::atomic::Ordering::SeqCst);
+        if let Ok(mut g) = LAST_NOTE.lock() {
+            g.clear();
+        }
         self.index = index;
         self.case_hash = 0xcbf2_9ce4_8422_2325;
         self.case_nontrivial = false;
